@@ -1,6 +1,6 @@
 (* Props/C15.v — malformed input is reported with the right line number. *)
 From Coq Require Import ZArith List Bool Arith String.
-From BNP Require Import Base.Prims Model.C01 Model.C15 Proofs.C01_delim Proofs.C01_lines Proofs.C15 Proofs.C15_oneline Gen.C01 Bridge.C01.
+From BNP Require Import Base.Prims Model.C01 Model.C15 Proofs.C01_delim Proofs.C01_lines Proofs.C15 Proofs.C15_oneline Proofs.C15_first Gen.C01 Bridge.C01.
 Import ListNotations.
 
 (* T1 (delimited formats, any column typing): for every file, every chunk size >= 1 and both reader modes,
@@ -67,19 +67,75 @@ Theorem C15_oneline_line_chunk_independent :
 Proof. exact oneline_line_chunk_independent. Qed.
 Print Assumptions C15_oneline_line_chunk_independent.
 
+(* T6 (after the repair of FastQBuffer._validate, /repo 570279e: a '+' violation that precedes the first marker
+   violation is raised first): NO assumption on the number of violations — whatever the chunk size and reader
+   mode, the reported line is the FIRST offending line of the whole text.  hdr <> 0 and hdr <> 10 exclude the two
+   byte values for which "first byte of an empty line" reads differently in the reader and in the specification
+   (Proofs/C15_oneline.v marker_0_counterexample, Proofs/C15_first.v first_bad_line_marker_10); FASTQ '@' = 64 and
+   FASTA '>' = 62 satisfy both. *)
+Theorem C15_oneline_first_bad_line :
+  forall n hdr plus m k file l chunks,
+    (1 <= n)%nat -> (plus = true -> (3 <= n)%nat) -> hdr <> 0%Z -> hdr <> 10%Z -> (1 <= k)%nat ->
+    read_chunks true (OneLine n hdr plus) m k file = FormatError l chunks ->
+    spec_oneline (OneLine n hdr plus) (norm_text file) = Some l.
+Proof. exact oneline_first_bad_line. Qed.
+Print Assumptions C15_oneline_first_bad_line.
+
+(* T7: hence any two reads of one file that end in a format error — any chunk sizes, any modes — report the same line *)
+Theorem C15_oneline_line_chunk_independent_strong :
+  forall n hdr plus m1 k1 m2 k2 file l1 chunks1 l2 chunks2,
+    (1 <= n)%nat -> (plus = true -> (3 <= n)%nat) -> hdr <> 0%Z -> hdr <> 10%Z -> (1 <= k1)%nat -> (1 <= k2)%nat ->
+    read_chunks true (OneLine n hdr plus) m1 k1 file = FormatError l1 chunks1 ->
+    read_chunks true (OneLine n hdr plus) m2 k2 file = FormatError l2 chunks2 ->
+    l1 = l2.
+Proof. exact oneline_line_chunk_independent_strong. Qed.
+Print Assumptions C15_oneline_line_chunk_independent_strong.
+
+(* the repaired order of the checks accepts exactly the buffers the old order accepted (completed reads are unaffected) *)
+Theorem C15_cut_ok_iff_pinned :
+  forall f c s m, cut f c = CutOk s m <-> cut_pinned f c = CutOk s m.
+Proof. exact cut_ok_iff_pinned. Qed.
+Print Assumptions C15_cut_ok_iff_pinned.
+
+(* History: the order before the repair (all markers first, then the '+' lines) is refuted — on an 8-line FASTQ
+   buffer whose first record lacks its '+' line it reports line 4 although line 2 is the first offending line. *)
+Theorem C15_pinned_order_refuted :
+  exists chunk a b,
+    cut_pinned (OneLine 4 64 true) chunk = CutFormat a
+    /\ ((count_nl chunk mod 4 = 0)%nat /\ ends_nl chunk = true)
+    /\ first_bad_line 4 64 true 0 (lines chunk) = Some b
+    /\ (b < a)%nat
+    /\ cut (OneLine 4 64 true) chunk = CutFormat b.
+Proof. exact pinned_order_refuted. Qed.
+Print Assumptions C15_pinned_order_refuted.
+
+(* non-vacuity of T6/T7: three FASTQ records, the '+' line of record 1 deleted (lines 6 and 8 offend): chunk
+   sizes 1 and 1000, both modes, all report line 6, the first offending line *)
+Example C15_first_bad_line_nonvacuous :
+  (exists c, read_chunks true FastQ Seek 1 fq_deleted_plus = FormatError 6 c)
+  /\ (exists c, read_chunks true FastQ Prepend 1 fq_deleted_plus = FormatError 6 c)
+  /\ (exists c, read_chunks true FastQ Seek 1000 fq_deleted_plus = FormatError 6 c)
+  /\ (exists c, read_chunks true FastQ Prepend 1000 fq_deleted_plus = FormatError 6 c)
+  /\ spec_oneline FastQ (norm_text fq_deleted_plus) = Some 6%nat
+  /\ line_is_bad 4 64 true (norm_text fq_deleted_plus) 6
+  /\ line_is_bad 4 64 true (norm_text fq_deleted_plus) 8.
+Proof. exact first_bad_line_example. Qed.
+
 (* Source tie for the line bookkeeping (shared with C01: Gen/C01.v is regenerated from /repo on every run): the
    reported line is the local line plus the lines delivered before, the marker violation of record i+1 is reported as
-   (i+1)*n, the '+' violation of record j as 2 + j*n, a first-record violation as 0, a parse error in row i as
+   (i+1)*n, the '+' violation of record j as 2 + j*n, the '+' violation is raised exactly when its line precedes the marker
+   violation's (plus_line < header_line), a first-record violation as 0, a parse error in row i as
    (lines before) + i. *)
 Theorem C15_source_tie :
   (forall l0 lines : nat, Z.of_nat (m_reported l0 lines) = gen_reported_line (Z.of_nat l0) (Z.of_nat lines))
   /\ (forall l nl : nat, Z.of_nat (m_lines_after l nl) = gen_lines_after (Z.of_nat l) (Z.of_nat nl))
   /\ (forall i n : nat, Z.of_nat (m_header_line i n) = gen_header_line (Z.of_nat i) (Z.of_nat n))
   /\ (forall j n : nat, Z.of_nat (m_plus_line j n) = gen_plus_line (Z.of_nat j) (Z.of_nat n))
+  /\ (forall p h : nat, m_plus_wins p h = gen_plus_wins (Z.of_nat p) (Z.of_nat h))
   /\ gen_first_record_line = 0%Z
   /\ (forall i before : nat, Z.of_nat (before + i) = gen_parse_error_line (Z.of_nat i) (Z.of_nat before)).
 Proof.
-  exact (conj b_reported_line (conj b_lines_after (conj b_header_line (conj b_plus_line (conj b_first_record_line b_parse_error_line))))).
+  exact (conj b_reported_line (conj b_lines_after (conj b_header_line (conj b_plus_line (conj b_plus_wins (conj b_first_record_line b_parse_error_line)))))).
 Qed.
 Print Assumptions C15_source_tie.
 
